@@ -153,3 +153,369 @@ Proof.
   refine (conj H1 (conj H2 (conj H4 (conj H5 (conj H6 (conj H7 (conj _ _))))))); [vm_compute; reflexivity|].
   exact (C09_json_native_up_to_classifier [] 5%Z 0%Z kvs H1 H2 H4 H5 ltac:(discriminate) H6 H7).
 Qed.
+
+(* ================================================================================================== *)
+(* added from Properties/C09_add.v (2026-10-01)                                              *)
+(* ================================================================================================== *)
+(* C09 (addition)  JSON == native beyond plain data: include entries, reads over mixed include graphs, references and
+   expressions.  Appended to Properties/C09.v. *)
+From Coq Require Import String.
+From Coq Require Import NArith ZArith List Bool.
+From DictIO Require Import Chars Str Value Scalar KeyPath SDict Layout Lexer TokParser Reader TreeSpec NativeSpec LayoutSpec E2ESpec.
+From Coq Require Import Permutation.
+From DictIO Require Import FlatSpec E2EProofs E2EHoles E2EFullProofs FoamProofs JsonNativeProofs JsonNativeExpr JsonNativeRead.
+Import ListNotations.
+
+(* ================================================================================================================= *)
+(* (1) include entries: the two front ends                                                                           *)
+(* ================================================================================================================= *)
+(* ins : the include entries as (JSON key text, JSON string value); the JSON unit is  { key_i : value_i, ... } followed by
+   the ordinary content kvs; the file names are  inames ins : name_i = value_i without one quote character at either end
+   (what the JSON parser makes of the value); the native text is the lines  #include 'name_i'  followed by the written
+   form of kvs.
+   inc_ok (boolean): the key is an include key of the JSON parser; the name is a single line, and the line comment stage
+   finds nothing in the directive (two slashes not preceded by a colon would be cut off as a comment: C09_name_with_slashes);
+   strs_nodup: the names are pairwise different (see C09_duplicate_include_finding).
+   Result, in closed form: both front ends deliver the placeholder entries first, numbered from their own counter, then
+   the ordinary data (native: each leaf as the classifier reads its written form, as in C09_json_native_up_to_classifier);
+   the include tables list the same names and the same anchored paths path_join dir name in the same order; no
+   expressions; the native counter has moved past the includes and the quoted leaves, the JSON counter past the includes. *)
+Theorem C09_includes_front_ends : forall dir c1 c2 ins kvs,
+  wf (Dict (json_inc_kvs ins ++ kvs)) = true -> forallb inc_ok ins = true -> strs_nodup (inames ins) = true ->
+  writable_tree (Dict kvs) = true -> ordinary_kvs kvs = true -> no_include_keys kvs = true ->
+  (-1 <= c1)%Z -> (-1 <= c2)%Z -> (Z.of_nat (length ins) <= 1000000)%Z ->
+  (Z.of_nat (nq (Dict kvs)) <= 1000000)%Z -> quoted_within 11 (Dict kvs) = true ->
+  let n := length ins in let names := inames ins in
+  json_parse dir c1 (json_inc_kvs ins ++ kvs) =
+    mkParsed (mkSD (inc_phs (ids c1 n) ++ kvs) [] [] (combine (ids c1 n) (map (json_entry dir) names)) []) (cafter c1 n) /\
+  parse_string true dir c2 (inc_text names ++ to_string_plain kvs) =
+    Ok (mkParsed (mkSD (inc_phs (ids c2 n) ++ kvs_of (map_leaves written_value (Dict kvs))) [] []
+                       (combine (ids c2 n) (map (nat_entry dir) names)) [])
+                 (cafter (cafter c2 n) (nq (Dict kvs)))).
+Proof. exact json_native_includes_b. Qed.
+Print Assumptions C09_includes_front_ends.
+
+(* the same in the words of the property: same names, same anchored paths, same order; the same directive texts when no
+   name contains a backslash; placeholder entries first and in table order in both results; behind them the ordinary
+   data, equal up to the classifier on string leaves; no expression entries *)
+Theorem C09_includes_same_table : forall dir c1 c2 ins kvs,
+  wf (Dict (json_inc_kvs ins ++ kvs)) = true -> forallb inc_ok ins = true -> strs_nodup (inames ins) = true ->
+  writable_tree (Dict kvs) = true -> ordinary_kvs kvs = true -> no_include_keys kvs = true ->
+  (-1 <= c1)%Z -> (-1 <= c2)%Z -> (Z.of_nat (length ins) <= 1000000)%Z ->
+  (Z.of_nat (nq (Dict kvs)) <= 1000000)%Z -> quoted_within 11 (Dict kvs) = true ->
+  let pj := json_parse dir c1 (json_inc_kvs ins ++ kvs) in
+  exists pn, parse_string true dir c2 (inc_text (inames ins) ++ to_string_plain kvs) = Ok pn /\
+    inc_names (sd_inc (pr_sd pj)) = map (fun n => (n, path_join dir n)) (inames ins) /\
+    inc_names (sd_inc (pr_sd pn)) = inc_names (sd_inc (pr_sd pj)) /\
+    (forallb (fun n => negb (has_char c_bsl n)) (inames ins) = true ->
+     map snd (sd_inc (pr_sd pn)) = map snd (sd_inc (pr_sd pj))) /\
+    sd_data (pr_sd pj) = inc_phs (map fst (sd_inc (pr_sd pj))) ++ kvs /\
+    sd_data (pr_sd pn) = inc_phs (map fst (sd_inc (pr_sd pn))) ++
+                         kvs_of (map_leaves written_value (Dict (skipn (length ins) (sd_data (pr_sd pj))))) /\
+    sd_expr (pr_sd pj) = [] /\ sd_expr (pr_sd pn) = [].
+Proof. exact json_native_includes_tables_b. Qed.
+Print Assumptions C09_includes_same_table.
+
+(* two includes (one value wrapped in quotes, one key with blanks around the hash and a name in a sub-directory), content of depth 2 with a quoted
+   string, a list and a nested dict; JSON counter 41, native counter 999998 (the native numbering wraps) *)
+Definition c09_ins : list (str * str) :=
+  [(of_string "#include b.json", of_string "'b.json'"); (of_string "  #  include two", of_string "sub dir/c")].
+Definition c09_inc_doc : list (key * tree) :=
+  [(KS (of_string "a"), Leaf (SInt 1)); (KS (of_string "s"), Leaf (SStr (of_string "two words")));
+   (KS (of_string "d"), Dict [(KS (of_string "x"), Leaf (SFloat (of_string "2.5"))); (KS (of_string "l"), Lst [Leaf (SBool true); Leaf SNone])])].
+
+Example C09_includes_front_ends_nonvacuous :
+  wf (Dict (json_inc_kvs c09_ins ++ c09_inc_doc)) = true /\ forallb inc_ok c09_ins = true /\
+  strs_nodup (inames c09_ins) = true /\ writable_tree (Dict c09_inc_doc) = true /\ ordinary_kvs c09_inc_doc = true /\
+  no_include_keys c09_inc_doc = true /\ quoted_within 11 (Dict c09_inc_doc) = true /\
+  (* computed *)
+  inc_text (inames c09_ins) ++ to_string_plain c09_inc_doc = of_string
+"#include 'b.json'
+#include 'sub dir/c'
+a                             1;
+s                             'two words';
+d
+{
+    x                         2.5;
+    l
+    (
+        true              NULL
+    );
+}
+" /\
+  sd_inc (pr_sd (json_parse (of_string "/r") 41 (json_inc_kvs c09_ins ++ c09_inc_doc))) =
+    [(42%N, (of_string "#include 'b.json'", of_string "b.json", of_string "/r/b.json"));
+     (43%N, (of_string "#include 'sub dir/c'", of_string "sub dir/c", of_string "/r/sub dir/c"))] /\
+  parse_string true (of_string "/r") 999998 (inc_text (inames c09_ins) ++ to_string_plain c09_inc_doc) =
+    Ok (mkParsed (mkSD (inc_phs [999999%N; 0%N] ++ c09_inc_doc) [] []
+                       [(999999%N, (of_string "#include 'b.json'", of_string "b.json", of_string "/r/b.json"));
+                        (0%N, (of_string "#include 'sub dir/c'", of_string "sub dir/c", of_string "/r/sub dir/c"))] []) 1) /\
+  (* by the theorem *)
+  (let n := length c09_ins in let names := inames c09_ins in
+   json_parse (of_string "/r") 41 (json_inc_kvs c09_ins ++ c09_inc_doc) =
+     mkParsed (mkSD (inc_phs (ids 41 n) ++ c09_inc_doc) [] [] (combine (ids 41 n) (map (json_entry (of_string "/r")) names)) [])
+              (cafter 41 n) /\
+   parse_string true (of_string "/r") 999998 (inc_text names ++ to_string_plain c09_inc_doc) =
+     Ok (mkParsed (mkSD (inc_phs (ids 999998 n) ++ kvs_of (map_leaves written_value (Dict c09_inc_doc))) [] []
+                        (combine (ids 999998 n) (map (nat_entry (of_string "/r")) names)) [])
+                  (cafter (cafter 999998 n) (nq (Dict c09_inc_doc))))).
+Proof.
+  assert (H1 : wf (Dict (json_inc_kvs c09_ins ++ c09_inc_doc)) = true) by (vm_compute; reflexivity).
+  assert (H2 : forallb inc_ok c09_ins = true) by (vm_compute; reflexivity).
+  assert (H3 : strs_nodup (inames c09_ins) = true) by (vm_compute; reflexivity).
+  assert (H4 : writable_tree (Dict c09_inc_doc) = true) by (vm_compute; reflexivity).
+  assert (H5 : ordinary_kvs c09_inc_doc = true) by (vm_compute; reflexivity).
+  assert (H6 : no_include_keys c09_inc_doc = true) by (vm_compute; reflexivity).
+  assert (H7 : quoted_within 11 (Dict c09_inc_doc) = true) by (vm_compute; reflexivity).
+  refine (conj H1 (conj H2 (conj H3 (conj H4 (conj H5 (conj H6 (conj H7 (conj _ (conj _ (conj _ _)))))))))); try (vm_compute; reflexivity).
+  exact (C09_includes_front_ends (of_string "/r") 41%Z 999998%Z c09_ins c09_inc_doc H1 H2 H3 H4 H5 H6
+           ltac:(discriminate) ltac:(discriminate) ltac:(vm_compute; discriminate) ltac:(vm_compute; discriminate) H7).
+Qed.
+
+(* what the side conditions exclude, machine checked *)
+(* (a) two include entries with the same file name: the clean-up drops the placeholder of the second in BOTH formats (the
+       data agree), but the JSON front end keeps the second table entry as an orphan (its second update re-inserts the
+       table saved before the first clean-up) whereas the native front end drops it with the key: the tables differ.
+       Confirmed on the library:  JsonParser on {"#include 1":"x","#include 2":"x","a":1} leaves includes {0:..,1:..},
+       NativeParser on the two-line text leaves {0:..}.  (A reader that walks the table reads x twice for the JSON unit.) *)
+Example C09_duplicate_include_finding :
+  let ins := [(of_string "#include 1", of_string "x"); (of_string "#include 2", of_string "x")] in
+  let kvs := [(KS (of_string "a"), Leaf (SInt 1))] in
+  let e := nat_entry (of_string "/r") (of_string "x") in
+  forallb inc_ok ins = true /\ strs_nodup (inames ins) = false /\
+  json_parse (of_string "/r") 41 (json_inc_kvs ins ++ kvs) =
+    mkParsed (mkSD (inc_phs [42%N] ++ kvs) [] [] [(42%N, e); (43%N, e)] []) 43 /\
+  parse_string true (of_string "/r") 41 (inc_text (inames ins) ++ to_string_plain kvs) =
+    Ok (mkParsed (mkSD (inc_phs [42%N] ++ kvs) [] [] [(42%N, e)] []) 43).
+Proof. vm_compute. repeat split; reflexivity. Qed.
+
+(* (b) a name with a backslash: same name, same path, but the JSON front end doubles the backslash in the directive text
+       it records (the text the native writer would emit for the entry), the native front end records the line as it is *)
+Example C09_backslash_directive_finding :
+  let ins := [(of_string "#include", [97; 92; 98])] in     (* a\b *)
+  forallb inc_ok ins = true /\
+  sd_inc (pr_sd (json_parse (of_string "/r") 41 (json_inc_kvs ins))) =
+    [(42%N, (of_string "#include '" ++ [97; 92; 92; 98; 39], [97; 92; 98], of_string "/r/" ++ [97; 92; 98]))] /\
+  (exists p, parse_string true (of_string "/r") 41 (inc_text (inames ins) ++ to_string_plain []) = Ok p /\
+     sd_inc (pr_sd p) = [(42%N, (of_string "#include '" ++ [97; 92; 98; 39], [97; 92; 98], of_string "/r/" ++ [97; 92; 98]))]).
+Proof. vm_compute. split; [reflexivity|]. split; [reflexivity|]. eexists. split; reflexivity. Qed.
+
+(* (c) a name with two slashes not preceded by a colon: the native line comment stage cuts the directive and puts its
+       placeholder there, the name read is a different one (a URL-like name with :// is fine) *)
+Example C09_name_with_slashes :
+  native_name_ok (of_string "a//b") = false /\ native_name_ok (of_string "http://h/b") = true /\
+  (exists p, parse_string true (of_string "/r") 41 (inc_text [of_string "a//b"]) = Ok p /\
+     inc_names (sd_inc (pr_sd p)) = [(of_string "aLINECOMMENT000042", of_string "/r/aLINECOMMENT000042")]) /\
+  inc_names (sd_inc (pr_sd (json_parse (of_string "/r") 41 (json_inc_kvs [(of_string "#include", of_string "a//b")])))) =
+    [(of_string "a//b", of_string "/r/a//b")].
+Proof. vm_compute. split; [reflexivity|]. split; [reflexivity|]. split; [eexists; split; reflexivity|reflexivity]. Qed.
+
+(* ================================================================================================================= *)
+(* (3) references and expressions: the two front ends                                                                *)
+(* ================================================================================================================= *)
+(* Flat documents (every top-level key holds a scalar; xdoc_ok, boolean): simple keys, pairwise different; every leaf is
+     - an ordinary bare scalar that reads back as itself (int, float, bool, none, single word), or
+     - a reference: dollar, word character, then word characters or square brackets ($a, $a[0]), or
+     - an expression: any characters but the two quote characters, backslash, semicolon, slash, hash and line feed,
+       with at least one reference, not a lone reference, no blank at either end; the expression texts are pairwise
+       different.
+   The JSON front end works on the string values (json_extract_expression), the native front end on the written text
+   (reference bare, expression in double quotes).  Both put a placeholder where every such leaf stood and register its
+   text: resolving the placeholders with the own table (the library's _insert_expression) gives the document back on
+   both sides, the tables hold the same texts (JSON in document order; native the quoted expressions first, then the
+   references), ids are pairwise distinct and every entry carries the name of its own placeholder.  Hence the shared
+   evaluation code is handed the same problem by both front ends.
+   FULL STATEMENT WANTED (not proved): the same for documents of any depth (nested dicts and lists) whose ordinary leaves
+   may also be quoted strings:
+     forall dir c1 c2 kvs, xtree_ok (Dict kvs) = true -> ... ->
+       exists pn, parse_string true dir c2 (to_string_plain kvs) = Ok pn /\
+         resolve_deep (sd_expr pj) (sd_data pj) = kvs /\ resolve_deep (sd_expr pn) (sd_data pn) = written values of kvs /\ ...
+   PROVED (partial): flat documents (every top-level key holds a scalar) with bare ordinary leaves.  Missing: the native
+   lexer on the nested layout with expression / reference leaves (the character-level machinery of C01 uses the dollar as
+   its hole marker and assumes dollar-free leaves), and quoted ordinary strings next to expressions. *)
+Theorem C09_expressions_front_ends_partial : forall dir c1 c2 kvs,
+  xdoc_ok kvs = true -> (-1 <= c1)%Z -> (-1 <= c2)%Z -> (Z.of_nat (length (xtexts kvs)) <= 1000000)%Z ->
+  let pj := json_parse dir c1 kvs in
+  exists pn, parse_string true dir c2 (to_string_plain kvs) = Ok pn /\
+    resolve (sd_expr (pr_sd pj)) (sd_data (pr_sd pj)) = kvs /\
+    resolve (sd_expr (pr_sd pn)) (sd_data (pr_sd pn)) = kvs /\
+    xtab_texts (sd_expr (pr_sd pj)) = xtexts kvs /\
+    xtab_texts (sd_expr (pr_sd pn)) = xexprs kvs ++ xrefs kvs /\
+    Permutation (xtab_texts (sd_expr (pr_sd pn))) (xtab_texts (sd_expr (pr_sd pj))) /\
+    xtab_wf (sd_expr (pr_sd pj)) /\ xtab_wf (sd_expr (pr_sd pn)) /\
+    sd_inc (pr_sd pj) = [] /\ sd_inc (pr_sd pn) = [] /\ map fst (sd_data (pr_sd pj)) = map fst kvs /\
+    map fst (sd_data (pr_sd pn)) = map fst kvs.
+Proof. exact json_native_expressions. Qed.
+Print Assumptions C09_expressions_front_ends_partial.
+
+(* the closed forms: which id goes where *)
+Theorem C09_expressions_json : forall dir c kvs,
+  xdoc_ok kvs = true -> (-1 <= c)%Z -> (Z.of_nat (length (xtexts kvs)) <= 1000000)%Z ->
+  let ks := ids c (length (xtexts kvs)) in
+  json_parse dir c kvs = mkParsed (mkSD (lab1 ks kvs) [] [] [] (xtab ks (xtexts kvs))) (cafter c (length (xtexts kvs))).
+Proof. exact json_parse_xdoc. Qed.
+Theorem C09_expressions_native : forall com dir c kvs,
+  xdoc_ok kvs = true -> (-1 <= c)%Z -> (Z.of_nat (length (xexprs kvs) + length (xrefs kvs)) <= 1000000)%Z ->
+  let es := ids c (length (xexprs kvs)) in let c' := cafter c (length (xexprs kvs)) in
+  let rs := ids c' (length (xrefs kvs)) in
+  parse_string com dir c (to_string_plain kvs) =
+    Ok (mkParsed (mkSD (lab2 es rs kvs) [] [] [] (xtab es (xexprs kvs) ++ xtab rs (xrefs kvs))) (cafter c' (length (xrefs kvs)))).
+Proof. exact native_parse_xdoc. Qed.
+Print Assumptions C09_expressions_json.
+Print Assumptions C09_expressions_native.
+
+Definition c09_xdoc : list (key * tree) :=
+  [(KS (of_string "a"), Leaf (SInt 5)); (KS (of_string "r"), Leaf (SStr (of_string "$a")));
+   (KS (of_string "e"), Leaf (SStr (of_string "$a + 1"))); (KS (of_string "w"), Leaf (SStr (of_string "word")));
+   (KS (of_string "r2"), Leaf (SStr (of_string "$a[0]"))); (KS (of_string "e2"), Leaf (SStr (of_string "2*($a+$r)")));
+   (KS (of_string "f"), Leaf (SFloat (of_string "1.5"))); (KS (of_string "b"), Leaf (SBool true))].
+
+Example C09_expressions_front_ends_partial_nonvacuous :
+  xdoc_ok c09_xdoc = true /\ xtexts c09_xdoc = [of_string "$a"; of_string "$a + 1"; of_string "$a[0]"; of_string "2*($a+$r)"] /\
+  (* computed: the written text, and the two numberings *)
+  to_string_plain c09_xdoc = of_string
+"a                             5;
+r                             $a;
+e                             ""$a + 1"";
+w                             word;
+r2                            $a[0];
+e2                            ""2*($a+$r)"";
+f                             1.5;
+b                             true;
+" /\
+  map (fun e => (fst e, fst (snd e))) (sd_expr (pr_sd (json_parse [] 41 c09_xdoc))) =
+    [(42%N, of_string "$a"); (43%N, of_string "$a + 1"); (44%N, of_string "$a[0]"); (45%N, of_string "2*($a+$r)")] /\
+  (exists p, parse_string true [] 999997 (to_string_plain c09_xdoc) = Ok p /\
+     map (fun e => (fst e, fst (snd e))) (sd_expr (pr_sd p)) =
+       [(999998%N, of_string "$a + 1"); (999999%N, of_string "2*($a+$r)"); (0%N, of_string "$a"); (1%N, of_string "$a[0]")] /\
+     map snd (sd_data (pr_sd p)) =
+       [Leaf (SInt 5); Leaf (SStr (of_string "EXPRESSION000000")); Leaf (SStr (of_string "EXPRESSION999998"));
+        Leaf (SStr (of_string "word")); Leaf (SStr (of_string "EXPRESSION000001")); Leaf (SStr (of_string "EXPRESSION999999"));
+        Leaf (SFloat (of_string "1.5")); Leaf (SBool true)]) /\
+  (* by the theorem *)
+  (let pj := json_parse [] 41 c09_xdoc in
+   exists pn, parse_string true [] 999997 (to_string_plain c09_xdoc) = Ok pn /\
+    resolve (sd_expr (pr_sd pj)) (sd_data (pr_sd pj)) = c09_xdoc /\
+    resolve (sd_expr (pr_sd pn)) (sd_data (pr_sd pn)) = c09_xdoc /\
+    xtab_texts (sd_expr (pr_sd pj)) = xtexts c09_xdoc /\
+    xtab_texts (sd_expr (pr_sd pn)) = xexprs c09_xdoc ++ xrefs c09_xdoc /\
+    Permutation (xtab_texts (sd_expr (pr_sd pn))) (xtab_texts (sd_expr (pr_sd pj))) /\
+    xtab_wf (sd_expr (pr_sd pj)) /\ xtab_wf (sd_expr (pr_sd pn)) /\
+    sd_inc (pr_sd pj) = [] /\ sd_inc (pr_sd pn) = [] /\ map fst (sd_data (pr_sd pj)) = map fst c09_xdoc /\
+    map fst (sd_data (pr_sd pn)) = map fst c09_xdoc).
+Proof.
+  assert (H1 : xdoc_ok c09_xdoc = true) by (vm_compute; reflexivity).
+  refine (conj H1 (conj _ (conj _ (conj _ (conj _ _))))); try (vm_compute; reflexivity).
+  - vm_compute. eexists. split; [reflexivity|]. split; reflexivity.
+  - exact (C09_expressions_front_ends_partial [] 41%Z 999997%Z c09_xdoc H1 ltac:(discriminate) ltac:(discriminate) ltac:(vm_compute; discriminate)).
+Qed.
+
+(* what the side conditions exclude, machine checked and confirmed on the library (JsonParser / NativeParser.parse_string) *)
+(* (d) blanks around a lone reference: the JSON front end registers the reference "$a" and leaves the blanks in the value
+       (" EXPRESSION000042 "), the native front end registers the whole quoted text " $a " and the value is the placeholder *)
+Example C09_padded_reference_finding :
+  let kvs := [(KS (of_string "a"), Leaf (SInt 5)); (KS (of_string "r"), Leaf (SStr (of_string " $a ")))] in
+  xdoc_ok kvs = false /\
+  sd_data (pr_sd (json_parse [] 41 kvs)) = [(KS (of_string "a"), Leaf (SInt 5)); (KS (of_string "r"), Leaf (SStr (of_string " EXPRESSION000042 ")))] /\
+  xtab_texts (sd_expr (pr_sd (json_parse [] 41 kvs))) = [of_string "$a"] /\
+  (exists p, parse_string true [] 41 (to_string_plain kvs) = Ok p /\
+     sd_data (pr_sd p) = [(KS (of_string "a"), Leaf (SInt 5)); (KS (of_string "r"), Leaf (SStr (of_string "EXPRESSION000042")))] /\
+     xtab_texts (sd_expr (pr_sd p)) = [of_string " $a "]).
+Proof. vm_compute. split; [reflexivity|]. split; [reflexivity|]. split; [reflexivity|]. eexists. split; [reflexivity|]. split; reflexivity. Qed.
+
+(* (e) two leaves with the same expression text: the native front end replaces the text globally, both leaves get the
+       first placeholder and the second table entry is an orphan; the JSON front end numbers the leaves separately *)
+Example C09_equal_expressions_finding :
+  let kvs := [(KS (of_string "a"), Leaf (SInt 5)); (KS (of_string "e"), Leaf (SStr (of_string "$a + 1")));
+              (KS (of_string "f"), Leaf (SStr (of_string "$a + 1")))] in
+  xdoc_ok kvs = false /\
+  map snd (sd_data (pr_sd (json_parse [] 41 kvs))) =
+    [Leaf (SInt 5); Leaf (SStr (of_string "EXPRESSION000042")); Leaf (SStr (of_string "EXPRESSION000043"))] /\
+  (exists p, parse_string true [] 41 (to_string_plain kvs) = Ok p /\
+     map snd (sd_data (pr_sd p)) =
+       [Leaf (SInt 5); Leaf (SStr (of_string "EXPRESSION000042")); Leaf (SStr (of_string "EXPRESSION000042"))] /\
+     map fst (sd_expr (pr_sd p)) = [42%N; 43%N]).
+Proof. vm_compute. split; [reflexivity|]. split; [reflexivity|]. eexists. split; [reflexivity|]. split; reflexivity. Qed.
+
+(* (f) a dollar that starts no reference: a plain string for the JSON front end, an expression for the native one (the
+       writer puts every string with a dollar in double quotes, the lexer registers every double-quoted text with a dollar) *)
+Example C09_dollar_without_reference_finding :
+  let kvs := [(KS (of_string "p"), Leaf (SStr (of_string "cost $ 5")))] in
+  xdoc_ok kvs = false /\
+  json_parse [] 41 kvs = mkParsed (mkSD kvs [] [] [] []) 41 /\
+  (exists p, parse_string true [] 41 (to_string_plain kvs) = Ok p /\
+     sd_data (pr_sd p) = [(KS (of_string "p"), Leaf (SStr (of_string "EXPRESSION000042")))] /\
+     xtab_texts (sd_expr (pr_sd p)) = [of_string "cost $ 5"]).
+Proof. vm_compute. split; [reflexivity|]. split; [reflexivity|]. eexists. split; [reflexivity|]. split; reflexivity. Qed.
+
+(* ================================================================================================================= *)
+(* (2) reads over include graphs in any mix of the two formats                                                       *)
+(* ================================================================================================================= *)
+(* A unit is a document (ins, kvs) as in (1) -- with udoc_okb (boolean): the side conditions of (1) and every leaf reads
+   back as itself (stable_tree, the common domain of C09_json_equals_native) -- stored either as the JSON tree
+   (render_json) or as the native text (render_native).  same_content u1 u2: both units store the same document.
+   fs_rel fs1 fs2: the two file systems hold the same paths in the same order and units with the same content.
+   opart d: the entries of d whose key is no include placeholder (the ordinary data).
+   For ANY include graph (shared files, cycles, missing files, any depth) and ANY assignment of formats to the files, on
+   either side and with independent counters: both reads fail with the same error (only: the root file is missing), or
+   both succeed and the ordinary data are the same list -- same keys, same order, same values at every depth. *)
+Theorem C09_read_mixed_formats : forall fs1 fs2 root c1 c2, fs_rel fs1 fs2 -> (-1 <= c1)%Z -> (-1 <= c2)%Z ->
+  same_read (read_plain fs1 root true true c1) (read_plain fs2 root true true c2).
+Proof. exact read_mixed_formats. Qed.
+Print Assumptions C09_read_mixed_formats.
+
+(* the include merging alone, for any two related parents (same ordinary data, include tables naming the same paths) *)
+Theorem C09_merge_includes_mixed : forall fs1 fs2 p1 p2 c1 c2, fs_rel fs1 fs2 -> prel p1 p2 -> (-1 <= c1)%Z -> (-1 <= c2)%Z ->
+  rres (merge_includes fs1 true p1 c1) (merge_includes fs2 true p2 c2).
+Proof. exact merge_includes_mixed. Qed.
+Print Assumptions C09_merge_includes_mixed.
+
+(* the ordinary part of a merge of good states is the specification merge (C07) of the ordinary parts *)
+Theorem C09_merge_ordinary_part : forall a o, good a -> good o ->
+  good (sd_merge a (sd_data o) (Some o)) /\
+  opart (sd_data (sd_merge a (sd_data o) (Some o))) = merge_spec (opart (sd_data a)) (opart (sd_data o)).
+Proof. exact sd_merge_good. Qed.
+Print Assumptions C09_merge_ordinary_part.
+
+(* four files: root includes a and 'b', a includes sub/c; overlapping keys at two levels (x in root, a and c; y in a and b
+   with different sub-keys); fsA = root JSON, a native, b JSON, c native; fsB = the opposite format for every file *)
+Definition c09_root : list (str * str) * list (key * tree) :=
+  ([(of_string "#include a", of_string "a"); (of_string "#include b", of_string "'b'")],
+   [(KS (of_string "x"), Leaf (SInt 1)); (KS (of_string "s"), Leaf (SStr (of_string "two words")))]).
+Definition c09_a : list (str * str) * list (key * tree) :=
+  ([(of_string "#include c", of_string "sub/c")],
+   [(KS (of_string "x"), Leaf (SInt 2)); (KS (of_string "y"), Dict [(KS (of_string "p"), Leaf (SInt 1))])]).
+Definition c09_b : list (str * str) * list (key * tree) :=
+  ([], [(KS (of_string "y"), Dict [(KS (of_string "q"), Leaf (SInt 2))]); (KS (of_string "z"), Leaf (SBool true))]).
+Definition c09_c : list (str * str) * list (key * tree) :=
+  ([], [(KS (of_string "w"), Leaf (SStr (of_string "deep"))); (KS (of_string "x"), Leaf (SInt 3))]).
+Definition c09_J (d : list (str * str) * list (key * tree)) : funit := render_json (fst d) (snd d).
+Definition c09_N (d : list (str * str) * list (key * tree)) : funit := render_native (fst d) (snd d).
+Definition c09_fsA : fsys :=
+  [(of_string "/r/root", c09_J c09_root); (of_string "/r/a", c09_N c09_a); (of_string "/r/b", c09_J c09_b); (of_string "/r/sub/c", c09_N c09_c)].
+Definition c09_fsB : fsys :=
+  [(of_string "/r/root", c09_N c09_root); (of_string "/r/a", c09_J c09_a); (of_string "/r/b", c09_N c09_b); (of_string "/r/sub/c", c09_J c09_c)].
+Definition c09_merged : list (key * tree) :=
+  [(KS (of_string "x"), Leaf (SInt 1)); (KS (of_string "s"), Leaf (SStr (of_string "two words")));
+   (KS (of_string "y"), Dict [(KS (of_string "p"), Leaf (SInt 1)); (KS (of_string "q"), Leaf (SInt 2))]);
+   (KS (of_string "w"), Leaf (SStr (of_string "deep"))); (KS (of_string "z"), Leaf (SBool true))].
+
+Example C09_read_mixed_formats_nonvacuous :
+  fs_rel c09_fsA c09_fsB /\
+  (* computed: both reads succeed, with different placeholder numbers and counters, and the same ordinary data *)
+  (exists sA cA sB cB, read_plain c09_fsA (of_string "/r/root") true true 41 = Ok (sA, cA) /\
+                       read_plain c09_fsB (of_string "/r/root") true true 7 = Ok (sB, cB) /\
+                       opart (sd_data sA) = c09_merged /\ opart (sd_data sB) = c09_merged /\
+                       map fst (sd_data sA) <> map fst (sd_data sB) /\ cA = 44%Z /\ cB = 11%Z) /\
+  (* by the theorem *)
+  same_read (read_plain c09_fsA (of_string "/r/root") true true 41) (read_plain c09_fsB (of_string "/r/root") true true 7).
+Proof.
+  assert (Hrel : fs_rel c09_fsA c09_fsB).
+  { assert (U : forall d, udoc_okb (fst d) (snd d) = true -> same_content (c09_J d) (c09_N d) /\ same_content (c09_N d) (c09_J d)).
+    { intros d Hd. split; exists (fst d), (snd d); (split; [exact Hd|]); split; first [left; reflexivity|right; reflexivity]. }
+    repeat constructor; cbn [fst snd]; first [apply (U c09_root)|apply (U c09_a)|apply (U c09_b)|apply (U c09_c)]; vm_compute; reflexivity. }
+  split; [exact Hrel|]. split.
+  - vm_compute. do 4 eexists. split; [reflexivity|]. split; [reflexivity|]. split; [reflexivity|]. split; [reflexivity|].
+    split; [discriminate|]. split; reflexivity.
+  - exact (C09_read_mixed_formats c09_fsA c09_fsB (of_string "/r/root") 41%Z 7%Z Hrel ltac:(discriminate) ltac:(discriminate)).
+Qed.
